@@ -116,12 +116,21 @@ def build(name, flavor="plain", extra_flags=(), src=None, quiet=False):
     os.makedirs(BUILD_DIR, exist_ok=True)
     out = os.path.join(BUILD_DIR, f"{name}.{flavor}.{key}")
     if os.path.exists(out):
+        try:
+            os.utime(out, None)
+        except OSError:
+            pass
         return out
-    # remove stale binaries of the same name/flavor (disk is limited)
+    # remove STALE binaries of the same name/flavor (disk is limited) — but never one that may still be
+    # in use by a concurrently running check (e.g. a VF_REPO_INCLUDE mutant run next to a normal run):
+    # only binaries not touched for two hours go
+    now = time.time()
     for f in os.listdir(BUILD_DIR):
         if f.startswith(f"{name}.{flavor}."):
+            fp = os.path.join(BUILD_DIR, f)
             try:
-                os.unlink(os.path.join(BUILD_DIR, f))
+                if now - os.path.getmtime(fp) > 7200:
+                    os.unlink(fp)
             except OSError:
                 pass
     tmp = out + f".tmp{os.getpid()}"
